@@ -18,13 +18,13 @@ import (
 
 // ShutdownOpts selects one shutdown scenario (C11)
 type ShutdownOpts struct {
-	Forced   bool
-	SlowSave bool // the store's Save takes 0-2 ms, a saver client keeps saves in flight
-	Clients  bool // schedule / cancel / save clients race with the shutdown
-	HTTP     bool
-	NoStore  bool // the runner is used without a store (no persistence): Shutdown must still return
+	Forced     bool
+	SlowSave   bool // the store's Save takes 0-2 ms, a saver client keeps saves in flight
+	Clients    bool // schedule / cancel / save clients race with the shutdown
+	HTTP       bool
+	NoStore    bool // the runner is used without a store (no persistence): Shutdown must still return
 	NoFinisher bool // nothing lets tasks end during the shutdown: a forced shutdown has to cancel every running job
-	Watchdog time.Duration
+	Watchdog   time.Duration
 }
 
 type jobAtBegin struct {
